@@ -936,6 +936,14 @@ class Envelope:
         """
         # Will not attempt to contract past vector
         # final = ExpansionLevel.Vector
+        if self.state is None:
+            # Not combined: the state lives in the Fock and Polarization instances
+            self.fock.contract(final=final, tol=tol)
+            self.polarization.contract(final=final, tol=tol)
+            return
+        if self.expansion_level != ExpansionLevel.Matrix:
+            # Already a state vector, nothing to contract
+            return
         assert isinstance(self.state, jnp.ndarray)
         assert self.state.shape == (self.dimensions, self.dimensions)
         state_squared = jnp.matmul(self.state, self.state)
